@@ -30,7 +30,7 @@ def build(spec, pose):
         c = C.Ellipse(T[:3, 3].copy(), np.ascontiguousarray(T[:3, :2].T), np.array(spec["radii"], dtype=float))
     elif k == "mesh":
         c = C.MeshGraph(T, np.array(spec["vertices"], dtype=float).reshape(-1, 3),
-                        np.array(spec["triangles"], dtype=int).reshape(-1, 3))
+                        np.array(spec["triangles"], dtype=(np.int32 if spec.get("tri32") else np.int64)).reshape(-1, 3))
     elif k == "hull":
         c = C.ConvexHullVertices(np.array(spec["vertices"], dtype=float).reshape(-1, 3))
     else:
@@ -55,7 +55,7 @@ def build_from(spec, T):
         c = C.Box(T, np.array(spec["size"], dtype=float))
     elif k == "mesh":
         c = C.MeshGraph(T, np.array(spec["vertices"], dtype=float).reshape(-1, 3),
-                        np.array(spec["triangles"], dtype=int).reshape(-1, 3))
+                        np.array(spec["triangles"], dtype=(np.int32 if spec.get("tri32") else np.int64)).reshape(-1, 3))
     else:
         return build(spec, T)
     if spec.get("margin"):
